@@ -178,3 +178,16 @@ package masswallet
 //@   modifies *
 //@   only nothing
 //@   at "txLocs, err := massutil.NewBlock(block).TxLoc()" assert[C01] bytesEq(blockMeta.Loc.Hash, 0, blockMeta.Hash, 0, 32)
+
+// ---- C15: formatting.  For every amount m in [0, MaxAmount] the result is the shortest plain decimal of m / 10^8:
+// integral digits without a leading zero (a single "0" allowed), then, only when the fraction is not zero, a point
+// and the fraction digits without trailing zeros; its value is exactly m.  Out-of-range amounts are refused.
+//@ func AmountToString
+//@   props C15 C19
+//@   theory numerals
+// AddUint and Atoi cannot fail for an amount in range: two defensive returns
+//@   dead returns 2
+//@   ensures[C15] (err == nil) == (m >= 0 && mathint(m) <= maxAmt())
+//@   at "return sInt + \".\" + sFrac, nil" assert[C15] alldigits(sInt) && len(sInt) >= 1 && (len(sInt) > 1 ==> sbyteAt(sInt, 0) != 48) && alldigits(sFrac) && len(sFrac) >= 1 && len(sFrac) <= 8 && sbyteAt(sFrac, len(sFrac) - 1) != 48
+//@   at "return sInt + \".\" + sFrac, nil" assert[C15] decval(sInt) * 100000000 + decval(sFrac) * pow10(8 - len(sFrac)) == mathint(m)
+//@   at "return sInt, nil" assert[C15] alldigits(sInt) && len(sInt) >= 1 && (len(sInt) > 1 ==> sbyteAt(sInt, 0) != 48) && decval(sInt) * 100000000 == mathint(m)
